@@ -125,6 +125,17 @@ CLAIMED["C19"] = ("proof", "PARTIAL. GENERATED from /repo on every run (Gen/Gen_
     "sample in quick, the full product in thorough or whenever a proof/tie is broken -- and reports every unhandled exception with its argv; "
     "the model's keep/drop decision is compared with the driver's warnings for every (name, axis) pair.",
     "7 C19", "Coq proof over translated gating logic and capability tables + exhaustive enumeration of the real driver (partial)")
+CLAIMED["C17"] = ("proof", "PARTIAL. The chain command line -> driver variable -> Output attribute -> attribute read by verif/output.py is "
+    "proved over the option tables GENERATED from /repo on every run (Gen/Gen_cli.v: flag chains, the pl.<attr> = <var> block, every "
+    "self.<attr> the outputs read) and the model of the argument loop (Model/Cli.v): every documented appearance option reaches an "
+    "attribute the outputs read (vm_compute over the tables), in a variable and an attribute of its own; for ANY option table, an option "
+    "group that assigns other variables never changes the value another option delivers, wherever it stands (independence), the last "
+    "occurrence wins, an absent option leaves the default; line styles cycle (element i mod n). The matplotlib calls made from the "
+    "attribute are runtime behaviour: every run executes verif.driver.run on random option subsets (standard plots with 2-3 inputs, a "
+    "diagram with one sub-axes per input, maps), intercepts savefig, and compares, for each option present, the value the MODEL says "
+    "reaches the figure with what the figure shows (texts, limits, ticks, rotations, scales, legend, line styles, font sizes, grid, "
+    "margins, size, dpi, file signature by extension).",
+    "7 C17", "Coq proof over translated option tables + argument-loop model; figure read-back correspondence check (partial)")
 PENDING = {}
 
 def main():
